@@ -38,12 +38,12 @@ theorem fresh_of_rowsConsistent {F : BodyFn} {P : Project} {g : G} (hwf : WF P g
     intro v hv
     obtain ⟨h, h1, h2⟩ := hm v hv
     rw [h1, h2]
-  rw [row_eq _ (hwf.prods t ht _ (mem_prods_of_mem_zipIdx hpi)), stateOf_nv] at hrow
+  rw [row_eq _ (hwf.prods t ht _ (mem_prods_of_mem_zipIdx hpi)), cr_stateOf_nv] at hrow
   rw [hrow, row_eq _ (tv_mem_neighbours g t.id), stateOf_tv P w t.id t (hwf.find t ht)]
   congr 2
   apply List.map_congr_left
   intro d hd
-  rw [row_eq _ (hwf.deps t ht d hd), stateOf_nv]
+  rw [row_eq _ (hwf.deps t ht d hd), cr_stateOf_nv]
 
 theorem Q.inv {F : BodyFn} {P : Project} {g : G} {w : World} {A : Nat → Prop} (hwf : WF P g) (q : Q F P g w A) :
     Inv F P g w := by
@@ -71,7 +71,7 @@ theorem fresh_congr {F : BodyFn} {w w' : World} {t : TaskSpec}
 theorem lookup_insert_same (fs : FS) (n c q : Nat) (h : lookup fs n = some c) : lookup (insert fs n c) q = lookup fs q := by
   by_cases hq : q = n
   · subst hq; rw [lookup_insert_self, h]
-  · exact lookup_insert_ne _ _ _ _ hq
+  · exact cr_lookup_insert_ne _ _ _ _ hq
 
 theorem applySteps_same (st : List Step) (w : World)
     (h : ∀ s ∈ st, ∃ n c, s = Step.write n c ∧ lookup w.fs n = some c) :
@@ -95,7 +95,7 @@ theorem applySteps_avoid (Keep : Nat → Prop) (st : List Step) (w : World)
     obtain ⟨n, c, rfl, hn⟩ := h _ (List.mem_cons_self ..)
     intro q hq
     rw [applySteps_cons, ih _ (fun s' hs' => h s' (List.mem_cons_of_mem _ hs')) q hq]
-    exact lookup_insert_ne _ _ _ _ (fun heq => hn (heq ▸ hq))
+    exact cr_lookup_insert_ne _ _ _ _ (fun heq => hn (heq ▸ hq))
 
 /-- every write of a body goes to a declared product and carries the body's function of the contents read at the start -/
 theorem bodySteps_mem (F : BodyFn) (t : TaskSpec) (fs : FS) (s : Step) (hs : s ∈ bodySteps F t fs) :
